@@ -279,6 +279,8 @@ let run_case (x : sx) : Stdlib.String.t =
                     | A "1" :: k -> SIdx (cp k)
                     | [A "2"] -> SWild true
                     | [A "3"] -> SWild false
+                    | A "5" :: L a :: L b :: rest ->
+                        SSlice (cp a, cp b, (match rest with [L c] -> Some (cp c) | _ -> None))
                     | A q :: k -> SBr (n_of_int (int_of_string q), cp k)
                     | _ -> failwith "bad step" in
                   let ks = List.map (function
